@@ -252,6 +252,10 @@ func genTable(rng *rand.Rand, o genOpts) tableCase {
 	}
 	if rng.Intn(40) == 0 { // sometimes too small: the writer must report an error
 		t.cfg.BlockSize = uint32(48 + rng.Intn(40))
+		if rng.Intn(3) == 0 {
+			// smaller than the file header and a block header: NewWriter must refuse it
+			t.cfg.BlockSize = uint32(1 + rng.Intn(47))
+		}
 	}
 	return t
 }
